@@ -157,6 +157,16 @@ func (k Keeper) EditToken(
 			)
 		}
 
+		// a stored token must keep passing Token.Validate (genesis validation requires
+		// max supply >= initial supply), also when burning has lowered the supply
+		if maxSupply < token.InitialSupply {
+			return errorsmod.Wrapf(
+				types.ErrInvalidMaxSupply,
+				"max supply must not be less than the initial supply %d",
+				token.InitialSupply,
+			)
+		}
+
 		token.MaxSupply = maxSupply
 	}
 
